@@ -8,6 +8,7 @@ coqc.  Search for failing inputs: Python oracles over what impl itself produced 
 _make_batch; config_batch_N.json, the submission script and the run script behind every sbatch)."""
 import json
 import logging
+import re
 import shutil
 import tempfile
 
@@ -65,7 +66,7 @@ def _oracles_only(chk, tmp):
                           {"component": "HpcSubmitter._make_batch", "group": g, "candidates": avail})
             continue
         for pr in batchdrv.mb_oracle(g, avail, res):
-            chk.violation("make_batch:" + pr.split(":")[0][:60], pr,
+            chk.violation("make_batch:" + re.sub(r"\bj\d+\b", "<job>", pr.split(":")[0])[:70], pr,
                           {"component": "HpcSubmitter._make_batch", "group": g, "candidates": avail, "impl_output": res})
     scs, pairs, _ = batchdrv.round_scenarios(chk, 400, 40, 40)
     obs = batchdrv.run_many_rounds(scs, tmp)
